@@ -155,6 +155,7 @@ var assumptions = []string{
 	"the database lives on tmpfs when /dev/shm is available (process-kill durability is not part of C09)",
 	"reopen restores through a transcription of the restore loop of (*Teamserver).Start() (AgentAll, AgentAdd, ParentOf, LinksOf); the real Start() is exercised by C10(c)",
 	"configuration: the WebHooks object, the Discord settings and the Service object are set on the teamserver object by a transcription of Start() (teamserver.go: WebHooks = NewWebHook(), SetDiscord from the WebHook block, Service from the Service block); the webhook endpoint and the operators' websockets are local servers owned by the case; time.Local is set for the case and restored",
+	"fault injection: the database fails through the real file - a trigger created (and dropped again) by the harness's own connection, or the write lock held by it - never through a hook in the code under test; SELECT statements never fail (a trigger cannot make them, and BEGIN IMMEDIATE leaves readers alone in rollback-journal mode); what a failed write means is taken from the unchanged tree: logged, the event goes on",
 }
 
 // ---------------------------------------------------------------- (b) random histories
@@ -753,7 +754,7 @@ func (g *lgen) aimed(kind string) {
 func TestC09b(t *testing.T) {
 	core.Run(t, core.Spec[Case]{
 		Property: "C09", Sub: "b",
-		Rule: "random histories of 1..25 events over 3-5 agents (or 20-70, see SIZE/SHAPE below; ids from the whole 32-bit range incl. >= 2^31, 1..n registered at start; database file, a third each: fresh / created by the current code and opened again / a copy of the committed testdata/golden-schema.db made by the unchanged tree's db.DatabaseNew - labels db:fresh|existed|golden) with events reg, connect(p,c) for any pair incl. self / ancestor / an id never seen, failed connect, disconnect(p,x) incl. non-children, unknown ids and Removed=FALSE, exit, killdate, markdead, markalive, and reopen (~1 event in 20: a new Teamserver on the same file restores sessions and links as Start() does, then the history goes on - labels db:reopened, pivot-events-after-reopen, re-parenting-on-existing-db; performed in every state, see RESTARTS below); a violation that occurs on the golden file only, while its schema differs from a fresh one, is reported as schema|existing-database-differs-from-fresh|<tables>; one history in three starts with agent 0 linking 2..n-1 (+1) children and possibly dying, so that deaths with 3 and more links are frequent (labels death-links:0/1/2/3+); same oracle as (a). Non-trivial: a second link, a re-parenting, or a self/ancestor connect; distinct = (those four flags, links at death, death of a child, length bucket, child disconnect, reopened). SIZE/SHAPE dimension: about one history in six (label agents:20-70) runs over 20-70 agents and starts with the connects that build a shape by construction, each naming an id the teamserver has not seen (one callback registers and links the agent): shape:chain (depth from {15,16,17,18,31,32,33,64,65} or random 3..69), shape:star (15-60 links on one agent), shape:broom (chain + fan of 2-8 at its end), shape:two-chains (two roots, depths from {7,8,9,15,16,17,31,32,33} or random); one in four restarts right after the shape; then 1..25 events, about half aimed at the shape: a deep agent names its ancestor at a drawn distance (1, 2, 15, 16, 17, depth-1, depth, random) or itself, an agent is linked below an agent of another tree (chains are stacked), a parent disconnects a child in the middle and the cut-off subtree root is later named by one of its own descendants at a drawn distance or linked elsewhere (cut-subtree-reconnected-below-own-descendant), markalive of a cut-off agent, death of an inner agent, reopen in between (reopen-at-depth>=16); the rest as in the small universes. Labels max-depth:<=4|5-15|16-17|18-33|>33 (deepest agent reached in the model forest), cyclic-connect-at-distance:1-2|3-15 and cyclic-connect-at-distance>=16. Oracle unchanged; with more than 8 sessions the routing task after each event is queued for every agent WITHOUT links only (each walk to the root passes through all ancestors, so every Parent pointer is still followed); distinct additionally records depth 5-15 / >=16 and whether a cyclic connect at distance >=16 was attempted. RESTARTS with stored links of inactive sessions: a restart restores only the sessions stored as active, so a stored link whose parent or child is inactive (after the disconnect of an agent that has links itself, a disconnect by a non-parent, a connect sent by a dead session) has no counterpart in the restored graph. The unchanged tree keeps such a row; rows found in that state right after a restart are DORMANT and tolerated while they stay unchanged (a dormant row that becomes a live link or disappears is ordinary again); every other row must be a live link, every live link has its row, and no agent may be the child in two rows, dormant or not (db|two-stored-parents). In both universe sizes one event in six (small) / eight (large) is a restart family: cut (an agent with links is disconnected by its parent - built first if there is none - then restart, one time in three twice: reopen-right-after-disconnect-of-an-inner-agent, two-reopens-in-a-row, reopen-with-stored-link-to-inactive-session), orphan (another agent reports the connect of a restored child whose stored parent is not in memory: connect-names-agent-whose-stored-parent-is-not-in-memory; half of the time a restart follows: reopen-after-connect-naming-an-orphan), back (the stored parent registers again - top-level, below another agent or below its former child - and reports the connect of its former child: orphan-linked-back-below-its-re-registered-stored-parent), twice; and while such an orphan exists one generic connect in three names it (connect-names-agent-with-other-dormant-stored-parent: the stored parent is in memory or the named agent itself was not restored). A family adds up to 6 events to the drawn 1..25. The oracle is evaluated after each of these events and after each restart. CONFIGURATION / ENVIRONMENT dimension: half of the histories run on the fixture's default teamserver object (label cfg:default); the other half draw every option independently, applied the way (*Teamserver).Start() turns the profile into state (and again at every reopen, before the sessions are restored): cfg:webhook = none (the empty WebHooks object Start() always creates; the default fixture has none at all) | 204 | 200 | 500 (profile block WebHook { Discord { Url } } naming a local HTTP server owned by the case that answers so, 200 and 500 with a body) | closed (the Url of a server that was closed): AgentAdd then builds Agent.ToMap() and posts it for every new and every restored session; cfg:operators=3 (three users in the Operators block, marks sent by them in turn), cfg:operators-connected=1|3 (authenticated operators on real websockets that receive every broadcast; connected again after each restart); cfg:service=block|type (Service block set up as in Start() on a private engine, with or without one registered third-party agent type); env:tz=UTC|+05:30|-08:00|+12:00|+14:00 (time.Local for the duration of the case); cfg:agent-killdate=past|future and cfg:agent-workinghours=set (the values every agent's DEMON_INIT carries). None of these may change the graph: the oracle is the same under all of them. EVENT side: connects reported by sessions that are in memory but INACTIVE - marked dead by an operator, kill date reached, exit received, disconnected by their parent or by its death - and keep calling back: about 2 events in 27 (small universes), 3 in 35 (large), 2 in 15-20 (scale, in the middle of and after the bulk) are an inactive-connect family: a known agent is made inactive in one of those ways unless one already is, then reports a successful connect naming an id the teamserver has never seen (half), a known agent or itself; one time in four the new child reports a connect in turn or the teamserver restarts (labels connect-by-inactive-sender:names-unknown-id|names-known-agent|names-itself-or-ancestor, inactive-sender:markdead|killdate|exit|disconnected; before this dimension 12% of the histories of (b) had a connect of an unknown id by an inactive sender, now 27%); and connectforeign (1 generic event in 21-27): the child's package inside a successful connect carries the magic value of a third-party agent type instead of the Demon's (label ev:connect-third-party-magic; only the invariants are asserted after it).",
+		Rule: "random histories of 1..25 events over 3-5 agents (or 20-70, see SIZE/SHAPE below; ids from the whole 32-bit range incl. >= 2^31, 1..n registered at start; database file, a third each: fresh / created by the current code and opened again / a copy of the committed testdata/golden-schema.db made by the unchanged tree's db.DatabaseNew - labels db:fresh|existed|golden) with events reg, connect(p,c) for any pair incl. self / ancestor / an id never seen, failed connect, disconnect(p,x) incl. non-children, unknown ids and Removed=FALSE, exit, killdate, markdead, markalive, and reopen (~1 event in 20: a new Teamserver on the same file restores sessions and links as Start() does, then the history goes on - labels db:reopened, pivot-events-after-reopen, re-parenting-on-existing-db; performed in every state, see RESTARTS below); a violation that occurs on the golden file only, while its schema differs from a fresh one, is reported as schema|existing-database-differs-from-fresh|<tables>; one history in three starts with agent 0 linking 2..n-1 (+1) children and possibly dying, so that deaths with 3 and more links are frequent (labels death-links:0/1/2/3+); same oracle as (a). Non-trivial: a second link, a re-parenting, or a self/ancestor connect; distinct = (those four flags, links at death, death of a child, length bucket, child disconnect, reopened). SIZE/SHAPE dimension: about one history in six (label agents:20-70) runs over 20-70 agents and starts with the connects that build a shape by construction, each naming an id the teamserver has not seen (one callback registers and links the agent): shape:chain (depth from {15,16,17,18,31,32,33,64,65} or random 3..69), shape:star (15-60 links on one agent), shape:broom (chain + fan of 2-8 at its end), shape:two-chains (two roots, depths from {7,8,9,15,16,17,31,32,33} or random); one in four restarts right after the shape; then 1..25 events, about half aimed at the shape: a deep agent names its ancestor at a drawn distance (1, 2, 15, 16, 17, depth-1, depth, random) or itself, an agent is linked below an agent of another tree (chains are stacked), a parent disconnects a child in the middle and the cut-off subtree root is later named by one of its own descendants at a drawn distance or linked elsewhere (cut-subtree-reconnected-below-own-descendant), markalive of a cut-off agent, death of an inner agent, reopen in between (reopen-at-depth>=16); the rest as in the small universes. Labels max-depth:<=4|5-15|16-17|18-33|>33 (deepest agent reached in the model forest), cyclic-connect-at-distance:1-2|3-15 and cyclic-connect-at-distance>=16. Oracle unchanged; with more than 8 sessions the routing task after each event is queued for every agent WITHOUT links only (each walk to the root passes through all ancestors, so every Parent pointer is still followed); distinct additionally records depth 5-15 / >=16 and whether a cyclic connect at distance >=16 was attempted. RESTARTS with stored links of inactive sessions: a restart restores only the sessions stored as active, so a stored link whose parent or child is inactive (after the disconnect of an agent that has links itself, a disconnect by a non-parent, a connect sent by a dead session) has no counterpart in the restored graph. The unchanged tree keeps such a row; rows found in that state right after a restart are DORMANT and tolerated while they stay unchanged (a dormant row that becomes a live link or disappears is ordinary again); every other row must be a live link, every live link has its row, and no agent may be the child in two rows, dormant or not (db|two-stored-parents). In both universe sizes one event in six (small) / eight (large) is a restart family: cut (an agent with links is disconnected by its parent - built first if there is none - then restart, one time in three twice: reopen-right-after-disconnect-of-an-inner-agent, two-reopens-in-a-row, reopen-with-stored-link-to-inactive-session), orphan (another agent reports the connect of a restored child whose stored parent is not in memory: connect-names-agent-whose-stored-parent-is-not-in-memory; half of the time a restart follows: reopen-after-connect-naming-an-orphan), back (the stored parent registers again - top-level, below another agent or below its former child - and reports the connect of its former child: orphan-linked-back-below-its-re-registered-stored-parent), twice; and while such an orphan exists one generic connect in three names it (connect-names-agent-with-other-dormant-stored-parent: the stored parent is in memory or the named agent itself was not restored). A family adds up to 6 events to the drawn 1..25. The oracle is evaluated after each of these events and after each restart. CONFIGURATION / ENVIRONMENT dimension: half of the histories run on the fixture's default teamserver object (label cfg:default); the other half draw every option independently, applied the way (*Teamserver).Start() turns the profile into state (and again at every reopen, before the sessions are restored): cfg:webhook = none (the empty WebHooks object Start() always creates; the default fixture has none at all) | 204 | 200 | 500 (profile block WebHook { Discord { Url } } naming a local HTTP server owned by the case that answers so, 200 and 500 with a body) | closed (the Url of a server that was closed): AgentAdd then builds Agent.ToMap() and posts it for every new and every restored session; cfg:operators=3 (three users in the Operators block, marks sent by them in turn), cfg:operators-connected=1|3 (authenticated operators on real websockets that receive every broadcast; connected again after each restart); cfg:service=block|type (Service block set up as in Start() on a private engine, with or without one registered third-party agent type); env:tz=UTC|+05:30|-08:00|+12:00|+14:00 (time.Local for the duration of the case); cfg:agent-killdate=past|future and cfg:agent-workinghours=set (the values every agent's DEMON_INIT carries). None of these may change the graph: the oracle is the same under all of them. EVENT side: connects reported by sessions that are in memory but INACTIVE - marked dead by an operator, kill date reached, exit received, disconnected by their parent or by its death - and keep calling back: about 2 events in 27 (small universes), 3 in 35 (large), 2 in 15-20 (scale, in the middle of and after the bulk) are an inactive-connect family: a known agent is made inactive in one of those ways unless one already is, then reports a successful connect naming an id the teamserver has never seen (half), a known agent or itself; one time in four the new child reports a connect in turn or the teamserver restarts (labels connect-by-inactive-sender:names-unknown-id|names-known-agent|names-itself-or-ancestor, inactive-sender:markdead|killdate|exit|disconnected; before this dimension 12% of the histories of (b) had a connect of an unknown id by an inactive sender, now 27%); and connectforeign (1 generic event in 21-27): the child's package inside a successful connect carries the magic value of a third-party agent type instead of the Demon's (label ev:connect-third-party-magic; only the invariants are asserted after it). FAULT-INJECTION dimension (fault_test.go): in one history in four ONE event runs while one dependency of the teamserver - the sqlite file of the case - fails; the fault is made with the real thing from outside the code under test (the harness's own connection to the same file), lifted right after the event and before the oracle reads, and the history continues (events, restarts). Faults: trigger = CREATE TRIGGER ... BEFORE UPDATE|INSERT|DELETE ON TS_Agents|TS_Links BEGIN SELECT RAISE(FAIL, 'database or disk is full'); END (every statement of that kind on that table that touches a row fails during the event); trigger-one-agent = the same WHEN the row concerns one agent id (TS_Agents.AgentID; either column of TS_Links), mostly an agent the event touches (the named agent, a child of a dying agent, the actor, its parent); write-lock = another connection holds BEGIN IMMEDIATE across the event, so every write statement of the teamserver waits for sqlite's busy timeout (5 s) and fails with 'database is locked' (few: about 3 per quick run, at a disconnect). The class (statement kind, table, how, kind of event) is drawn first with equal shares and the fault is attached while the history is generated to one of the events of that kind (preferring events that issue the failing statement: a connect of a new agent for INSERT on TS_Agents, a re-parenting connect for DELETE on TS_Links, the disconnect of a child, the death of an agent with links or a parent); when the history has none, one is built at its end and 0-5 more events and possibly a restart follow; one faulted event in four is directly followed by a restart. Labels fault:db:<statement>-<table>:<how>@<connect|disconnect|death|reg|markalive> (23 classes, each 20 times or more per quick run except the write lock), fault:at-event-that-removes-or-replaces-a-live-link, fault:restart-later, fault:events-after=0|1-3|4+. ORACLE under a fault = the unchanged one, with the unchanged tree as the model of what a failed statement means (cmd/server/agent.go, pkg/db: every error of DB.AgentAdd / AgentUpdate / LinkAdd / LinkRemove is logged and the event goes on; the sessions never depend on the result of a write): a failed statement on TS_Agents (or one the tree never issues: DELETE on TS_Agents, UPDATE on TS_Links) excuses NOTHING - sessions and TS_Links must be as after the same event without the fault, at that event and at every later one; a failed DELETE on TS_Links leaves its row (a row that was there before the faulted event, is covered by the failing statement kind / WHEN clause and is not a live link after it is excused), a failed INSERT leaves a live link without a row (excused likewise); the agent that is the CHILD of such a row or link is then out of step: until its stored rows are again exactly its live link (one row naming its parent, or none) rows naming it as the child may disagree with the sessions (stale, missing, two stored parents - the unchanged tree repairs this lazily and may leave the second of two rows behind), every other agent is held to the table oracle as before; a restart rebuilds the sessions from the table and ends the excuse, except for an agent with two stored parents; the graph of the SESSIONS (acyclic, one parent, Links <=> Parent, post-conditions, tasks complete) is never excused, after a restart either. A violation in a history whose faulted event was delivered carries |fault=<statement>-<table>:<how> at the end of its signature.",
 		Gen:   genB, Check: checkCase, Classify: classify,
 		Assumptions: assumptions,
 	})
